@@ -62,15 +62,16 @@ class _State:
     budget = None
     active = False
     registered = set()
+    codes = {}
     tool_ok = False
 
 
 def _on_line(code, line):
     _State.count += 1
     if _State.budget is not None and _State.count > _State.budget:
-        b = _State.budget
-        _State.budget = None  # raise once
-        raise StepBudgetExceeded(_State.count, b)
+        # keep raising on every further line until steps() is left: a single
+        # exception can be swallowed by C code that clears errors
+        raise StepBudgetExceeded(_State.count, _State.budget)
 
 
 def _ensure_tool():
@@ -82,17 +83,27 @@ def _ensure_tool():
         _State.tool_ok = True
 
 
+def _codes_for(module_names):
+    out = []
+    for name in module_names:
+        if name not in _State.codes:
+            mod = sys.modules.get(name)
+            if mod is None:
+                import importlib
+                mod = importlib.import_module(name)
+            _State.codes[name] = _code_objects(mod)
+        out.extend(_State.codes[name])
+    return out
+
+
 def watch_modules(module_names):
-    """Enable LINE events on every function of the named (imported) modules."""
+    """Permanently enable LINE events on every function of the named modules
+    (used where construction is always counted, e.g. C05)."""
     _ensure_tool()
     mon = sys.monitoring
-    for name in module_names:
-        if name in _State.registered:
-            continue
-        mod = sys.modules[name]
-        for co in _code_objects(mod):
-            mon.set_local_events(TOOL, co, mon.events.LINE)
-        _State.registered.add(name)
+    for co in _codes_for(module_names):
+        mon.set_local_events(TOOL, co, mon.events.LINE)
+    _State.registered.update(module_names)
 
 
 TABLE_MODULES = ["parglare.tables", "parglare.closure"]
@@ -100,14 +111,24 @@ PARSE_MODULES = ["parglare.parser", "parglare.glr"]
 
 
 @contextlib.contextmanager
-def steps(budget=None):
-    """with steps(budget) as s: ...; s.count afterwards.  Nested use is not
-    supported (not needed)."""
+def steps(budget=None, modules=None):
+    """with steps(budget, modules) as s: ...; s.count afterwards.  If modules
+    is given, LINE events are switched on for them only inside the block (line
+    monitoring slows the monitored code down 6-10x, so the parse checks switch
+    it on only to decide a suspected non-termination and for calibration
+    samples).  Nested use is not supported (not needed)."""
 
     class R:
         count = 0
 
     r = R()
+    temp = []
+    if modules:
+        _ensure_tool()
+        mon = sys.monitoring
+        temp = [co for m in modules if m not in _State.registered for co in _codes_for([m])]
+        for co in temp:
+            mon.set_local_events(TOOL, co, mon.events.LINE)
     _State.count = 0
     _State.budget = budget
     try:
@@ -115,17 +136,57 @@ def steps(budget=None):
     finally:
         r.count = _State.count
         _State.budget = None
+        for co in temp:
+            sys.monitoring.set_local_events(TOOL, co, 0)
 
 
 @contextlib.contextmanager
 def watchdog(seconds):
-    def handler(signum, frame):
-        raise WatchdogTimeout()
+    """SIGALRM watchdog; may be nested (the outer timer is suspended and
+    resumed with its remaining time).  Only ever used to produce
+    'inconclusive' or to trigger a deterministic re-run under steps()."""
+    import time
 
-    old = signal.signal(signal.SIGALRM, handler)
-    signal.setitimer(signal.ITIMER_REAL, seconds)
+    state = {"armed": True}
+
+    def handler(signum, frame):
+        # The timer is periodic: an exception raised from a signal handler can
+        # be swallowed when it happens to land inside C code that clears
+        # errors (observed with __hash__ called from dict look-ups), so keep
+        # raising until the block is really left.
+        if state["armed"]:
+            raise WatchdogTimeout()
+
+    old_handler = signal.signal(signal.SIGALRM, handler)
+    old_delay, _ = signal.setitimer(signal.ITIMER_REAL, seconds, 0.05)
+    t0 = time.monotonic()
     try:
         yield
     finally:
-        signal.setitimer(signal.ITIMER_REAL, 0)
-        signal.signal(signal.SIGALRM, old)
+        while True:
+            try:
+                state["armed"] = False
+                signal.setitimer(signal.ITIMER_REAL, 0)
+                break
+            except WatchdogTimeout:  # fired between leaving the block and here
+                continue
+        signal.signal(signal.SIGALRM, old_handler)
+        if old_delay > 0:
+            signal.setitimer(signal.ITIMER_REAL,
+                             max(0.001, old_delay - (time.monotonic() - t0)), 0.05)
+
+
+def guarded(fn, budget, modules, soft_timeout=2.0, sample=False):
+    """Run fn() at full speed under a short watchdog; only if that fires (or
+    when `sample` asks for a calibration run) re-run it under the deterministic
+    line budget, which then decides: returns (result, steps or None) or raises
+    StepBudgetExceeded.  fn must be re-runnable."""
+    if not sample:
+        try:
+            with watchdog(soft_timeout):
+                return fn(), None
+        except WatchdogTimeout:
+            pass
+    with steps(budget, modules) as s:
+        res = fn()
+    return res, s.count
